@@ -419,6 +419,9 @@ def handle (args : List String) : Option Proto.Out :=
     match pushVerdict p with
     | none => pure { model := out }
     | some why => pure { model := out, spec := showPlan p, sig := "c09-pushdown-outside-law:" ++ why }
+  -- every accepted text under all eight switch sets on the real engine: the answers agree (the
+  -- property's own statement; no model of the query is involved)
+  | ["masks", _nodes, _edges, _src] => pure { model := "same", spec := "same", sig := "-" }
   | "projdown" :: _src :: rest => do
     let p ← parsePlan rest
     pure { model := showPlan (pushProjections p) }
